@@ -27,6 +27,9 @@ META = {
 }
 TOKENS = ["/", ".", "..", "a", "b", "//", "a/.."]
 CHARS = ["/", ".", "a"]
+# names may legally contain characters that are separators elsewhere (backslash, drive-like colons): on POSIX they
+# are ordinary name characters and must stay inside one component
+TOKENS_ODD = ["/", "..", "a", "\\", "..\\..", "\\..\\", "c:"]
 ROOTS = ["/srv/r", "/srv/r/", "/"]
 SI = SFTPServerInterface(None)
 
@@ -105,7 +108,7 @@ def work(item, acc):
                 run_one("".join(t), acc)
         acc.sample({"input": "a/../../b", "result": SI.canonicalize("a/../../b")})
         return
-    alphabet = TOKENS if kind == "tokens" else CHARS
+    alphabet = TOKENS if kind == "tokens" else (TOKENS_ODD if kind == "tokens-odd" else CHARS)
     head = "".join(prefix)
     k = 0
     for n in range(0, maxlen - len(prefix) + 1):
@@ -115,13 +118,14 @@ def work(item, acc):
             k += 1
             if k == 1000 and len(acc.samples) < 2:
                 acc.sample({"input": p, "result": SI.canonicalize(p)})
-    acc.count("token_sequences" if kind == "tokens" else "char_strings", k)
+    acc.count("token_sequences" if kind.startswith("tokens") else "char_strings", k)
 
 
 def plan(tier):
     ntok, nchar = (6, 9) if tier == "quick" else (8, 13)
     items = [("tokens-short", (), 1)]
     items += [("tokens", p, ntok) for p in itertools.product(TOKENS, repeat=2)]
+    items += [("tokens-odd", (p,), ntok - 1) for p in TOKENS_ODD]
     # char-level strings: lengths 0..2 are covered by the prefixes' own (shorter) siblings below
     items += [("chars", p, nchar) for p in itertools.product(CHARS, repeat=3)]
     items += [("chars", p, len(p)) for n in range(0, 3) for p in itertools.product(CHARS, repeat=n)]
